@@ -638,6 +638,19 @@ def conflict_suite(tier, seed):
         if names:
             d["connections"].append({"src": names[0], "dst": "router", "dst_idx": [1, 0], "dst_dir": "North"})
             out.append((d, {"topo": "double-attached", "via": "second array router"}))
+    # a ONE-WAY router-router connection (`bidirectional: false`) closing a chain of three routers into a ring: whatever
+    # floogen does with it (today: not implemented, rejected), an accepted description must keep every port's inputs and
+    # outputs on one neighbour
+    for algo in ("ID", "SRC"):
+        for nw in (False, True):
+            d = header("oneway", nw, algo)
+            alloc = Alloc(rng)
+            d["endpoints"] = [mk_ep(nm_, "ms", nw, rng, alloc) for nm_ in ("ea", "eb", "ec")]
+            d["routers"] = [{"name": "r0"}, {"name": "r1"}, {"name": "r2"}]
+            d["connections"] = [{"src": "r0", "dst": "r1"}, {"src": "r1", "dst": "r2"},
+                                {"src": "r2", "dst": "r0", "bidirectional": False},
+                                {"src": "ea", "dst": "r0"}, {"src": "eb", "dst": "r1"}, {"src": "ec", "dst": "r2"}]
+            out.append((d, {"topo": "one-way-link", "via": "ring closed by a unidirectional connection"}))
     # valid: two endpoints connected to each other directly, no router at all (chimney to chimney)
     for algo in ("ID", "SRC"):
         for nw in (False, True):
@@ -836,6 +849,15 @@ def xy_suite(tier, seed, algo="XY"):
         roles = {sd: rng.choice(["s", "ms", "m"]) for sd in "WESN"}
         out.append(mesh(rng, m, n, algo, rng.random() < 0.25, sides=sides, partial=part, side_role=roles,
                         cluster_role=rng.choice(["ms", "m", "s"]), side_nranges=rng.choice([1, 2])))
+    # routers with MORE ports than the five compass / local ones (degree 6, 7): the local endpoint stays on port 4 --
+    # where the hardware ejects -- and the spare ports stay unused
+    for (m, n, deg) in ([(2, 2, 6), (2, 1, 7)] if tier == "quick" else [(2, 2, 6), (2, 1, 7), (3, 2, 6), (1, 1, 6), (3, 3, 8)]):
+        for sides in ((), ("W", "N")):
+            d, t = mesh(rng, m, n, algo, rng.random() < 0.25, sides=sides, dir_end=rng.choice(["dst", "src"]))
+            if d is not None:
+                d = json.loads(json.dumps(d))
+                d["routers"][0]["degree"] = deg
+                out.append((d, dict(t, topo="mesh-wide-routers", degree=deg)))
     # one endpoint array whose elements sit on different sides
     for (m, n) in ([(2, 2), (1, 2), (3, 2)] if tier == "quick" else [(1, 1), (2, 2), (1, 2), (2, 1), (3, 2), (3, 3)]):
         for kk in (2, 3, 4):
